@@ -2258,7 +2258,9 @@ class UpdateRisk(Algo):
 
         target.risk[self.measure] = risk
         if depth < self.history:
-            target.risks.loc[target.now, self.measure] = risk
+            # a security that never traded has not been updated: like the unit
+            # risk above, the row is that of the root's date
+            target.risks.loc[target.root.now, self.measure] = risk
 
     def __call__(self, target):
         unit_risk_frame = target.get_data("unit_risk")[self.measure]
